@@ -83,9 +83,10 @@ fn one_case(ctx: &Ctx, case: u64, l: &mut Local) {
     // the property quantifies over ALL salt queues that are long enough: mostly unique salts, but
     // also constant queues and queues drawn from two values (identical disclosures may then arise;
     // for those queues only count / order / reproducibility are asserted, not the round trip)
-    let queue_kind = match r.below(10) {
+    let queue_kind = match r.below(12) {
         0 => "constant",
         1 => "two-valued",
+        2 => "with-blank-entries",
         _ => "unique",
     };
     let pool: Vec<String> = (0..2)
@@ -101,6 +102,7 @@ fn one_case(ctx: &Ctx, case: u64, l: &mut Local) {
         .map(|_| match queue_kind {
             "constant" => pool[0].clone(),
             "two-valued" => r.pick(&pool).clone(),
+            "with-blank-entries" if r.chance(30) => (*r.pick(&["", " ", "  "])).to_string(),
             _ => {
                 let mut b = [0u8; 16];
                 for x in b.iter_mut() {
